@@ -140,6 +140,18 @@ def systematic(kind):
     paths = [("id",), ("rawId",), ("type",), ("authenticatorAttachment",), ("response",)] + [("response", k) for k in base_resp]
     import copy
     out = [(copy.deepcopy(base), ["all-valid"])]
+    # well-formed credentials whose binary members are long (ids up to the 1023 bytes the specification allows and beyond,
+    # large client data / attestation objects): size is not a reason to refuse
+    for n in (255, 256, 767, 768, 769, 1023, 1024, 4096):
+        d = copy.deepcopy(base)
+        big = bytes((i * 7 + n) % 256 for i in range(n))
+        d["id"] = d["rawId"] = core.b64url(big)
+        out.append((d, [f"rawId-{n}-bytes"]))
+        d2 = copy.deepcopy(base)
+        for k in d2["response"]:
+            if isinstance(d2["response"][k], str):
+                d2["response"][k] = core.b64url(big)
+        out.append((d2, [f"response-members-{n}-bytes"]))
     for path in paths:
         for v in CATALOGUE_VALUES + ["<absent>"]:
             d = copy.deepcopy(base)
@@ -197,6 +209,10 @@ def work(tasks, idx):
             res.nontrivial.add((kind, text))
             res.count(f"{kind}:" + corr.kind(code_d))
             # the property on the real code: text and dict agree; never a non-library error; fidelity on accept
+            if shape and isinstance(shape[0], str) and (shape[0] == "all-valid" or shape[0].startswith(("rawId-", "response-members-"))) \
+                    and code_d["k"] != "accept":
+                res.violations.append({"why": f"well-formed credential ({shape[0]}) was not parsed: {str(code_d)[:200]}", "value": text[:600],
+                                       "match": {"op": "parse_cred_json", "kind": kind, "relation": "well-formed-refused"}})
             if corr.kind(code_d) != corr.kind(code_t) or code_d.get("record") != code_t.get("record"):
                 res.violations.append({"why": "text and dict form give different results", "value": text, "dict": code_d, "text": code_t,
                                        "match": {"op": "parse_cred_json", "kind": kind, "relation": "text-vs-dict"}})
